@@ -618,167 +618,197 @@ enum SPhase {
     End,
 }
 
+/// the behaviour of a scripted stream, shared by the drop-tracked and the drop-glue-free flavour
+fn poll_source<S: SKind>(id: Cid, addr: usize, cx: &mut Context<'_>) -> Poll<Option<S::Item>> {
+    let _cb = CbGuard::new();
+    let slot = cx.waker().data() as usize;
+    let role = w(|x| x.children[id as usize].role);
+    if role == Role::Upstream {
+        // upstream is not a child of a collection: no child-poll accounting, but life-cycle + address
+        w(|x| {
+            let (life, old_addr) = {
+                let c = &x.children[id as usize];
+                (c.life, c.addr)
+            };
+            x.ev(|| format!("    poll upstream"));
+            x.up_polled_in_call = true;
+            if life == Life::Done {
+                x.violate(
+                    p(10),
+                    "C10/upstream-polled-after-none",
+                    "upstream polled again after it returned None",
+                );
+            }
+            if old_addr != 0 && old_addr != addr {
+                x.violate(
+                    p(8),
+                    "C08/upstream-moved",
+                    format!("upstream first polled at {old_addr:#x}, now at {addr:#x}"),
+                );
+            }
+            let c = &mut x.children[id as usize];
+            if c.addr == 0 {
+                c.addr = addr;
+            }
+            if c.life == Life::Fresh {
+                c.life = Life::Polled;
+            }
+            c.polls += 1;
+        });
+    } else if !enter_child_poll(id, addr, slot, "source") {
+        panic!("VERIF_HARD_CAP");
+    }
+    let (phase, mode) = w(|x| {
+        let frozen = x.frozen;
+        let stop = x.stop_infinite;
+        if frozen && role == Role::Upstream && x.children[id as usize].life != Life::Done {
+            x.up_last_pending_in_call = true;
+        }
+        let c = &mut x.children[id as usize];
+        let mode = c.plan.stash.max(1);
+        if c.life == Life::Done {
+            return (SPhase::End, mode);
+        }
+        if frozen {
+            c.last_pending = true;
+            return (SPhase::Pend(false), mode);
+        }
+        let ph = if c.pos < c.plan.script.len() {
+            let st = c.plan.script[c.pos];
+            c.pos += 1;
+            match st {
+                SStep::Item => {
+                    let s = c.items_out;
+                    c.items_out += 1;
+                    SPhase::Item(s)
+                }
+                SStep::Err => {
+                    let s = c.items_out;
+                    c.items_out += 1;
+                    SPhase::Err(s)
+                }
+                SStep::Pend(sw) => SPhase::Pend(sw),
+            }
+        } else if c.plan.infinite && !stop {
+            let s = c.items_out;
+            c.items_out += 1;
+            SPhase::Item(s)
+        } else {
+            SPhase::End
+        };
+        match ph {
+            SPhase::Pend(_) => c.last_pending = true,
+            _ => c.last_pending = false,
+        }
+        if let SPhase::End = ph {
+            if role == Role::Upstream {
+                c.life = Life::Done;
+                x.up_ended = true;
+                x.up_last_pending_in_call = false;
+                if x.inflight > 0 {
+                    x.labels |= lb::UP_END_INFLIGHT;
+                }
+            } else {
+                mark_done(x, id);
+                x.labels |= lb::SOURCE_ENDED;
+            }
+        } else if role == Role::Upstream {
+            x.up_last_pending_in_call = matches!(ph, SPhase::Pend(_));
+            if matches!(ph, SPhase::Pend(_)) {
+                x.labels |= lb::UP_GAP;
+            }
+        }
+        (ph, mode)
+    });
+    match phase {
+        SPhase::Item(seq) => Poll::Ready(Some(S::item(id, seq))),
+        SPhase::Err(seq) => match S::err(id, seq) {
+            Some(e) => Poll::Ready(Some(e)),
+            None => Poll::Ready(Some(S::item(id, seq))),
+        },
+        SPhase::End => Poll::Ready(None),
+        SPhase::Pend(sw) => {
+            if role == Role::Upstream {
+                let c = cx.waker().clone();
+                let old = w(|x| x.children[id as usize].task_stash.replace(c));
+                drop(old);
+                if sw {
+                    w(|x| {
+                        x.ev(|| "    upstream wakes itself".to_string());
+                        x.bracket += 1
+                    });
+                    cx.waker().wake_by_ref();
+                    w(|x| x.bracket -= 1);
+                }
+            } else {
+                stash_waker(id, cx.waker(), mode);
+                if sw {
+                    begin_invocation(slot, id, "self wake_by_ref (source)");
+                    vt(|| cx.waker().wake_by_ref());
+                    end_invocation();
+                }
+            }
+            Poll::Pending
+        }
+    }
+}
+
+fn source_hint(id: Cid) -> (usize, Option<usize>) {
+    w(|x| {
+        let c = &x.children[id as usize];
+        if c.life == Life::Done {
+            return (0, Some(0));
+        }
+        if c.plan.infinite && !x.stop_infinite {
+            return (usize::MAX, None);
+        }
+        let rem = c.plan.script[c.pos.min(c.plan.script.len())..]
+            .iter()
+            .filter(|s| !matches!(s, SStep::Pend(_)))
+            .count();
+        match c.upstream_kind % 5 {
+            0 => (rem, Some(rem)),
+            1 => (rem / 2, Some(rem + 3)),
+            2 => (0, None),
+            3 => (rem, Some(usize::MAX)),
+            _ => (rem, None),
+        }
+    })
+}
+
 impl<S: SKind> Stream for ScriptStream<S> {
     type Item = S::Item;
 
     fn poll_next(self: Pin<&mut Self>, cx: &mut Context<'_>) -> Poll<Option<S::Item>> {
-        let _cb = CbGuard::new();
         let id = self.id;
         let addr = &*self as *const Self as usize;
-        let slot = cx.waker().data() as usize;
-        let role = w(|x| x.children[id as usize].role);
-        if role == Role::Upstream {
-            // upstream is not a child of a collection: no child-poll accounting, but life-cycle + address
-            w(|x| {
-                let (life, old_addr) = {
-                    let c = &x.children[id as usize];
-                    (c.life, c.addr)
-                };
-                x.ev(|| format!("    poll upstream"));
-                x.up_polled_in_call = true;
-                if life == Life::Done {
-                    x.violate(
-                        p(10),
-                        "C10/upstream-polled-after-none",
-                        "upstream polled again after it returned None",
-                    );
-                }
-                if old_addr != 0 && old_addr != addr {
-                    x.violate(
-                        p(8),
-                        "C08/upstream-moved",
-                        format!("upstream first polled at {old_addr:#x}, now at {addr:#x}"),
-                    );
-                }
-                let c = &mut x.children[id as usize];
-                if c.addr == 0 {
-                    c.addr = addr;
-                }
-                if c.life == Life::Fresh {
-                    c.life = Life::Polled;
-                }
-                c.polls += 1;
-            });
-        } else if !enter_child_poll(id, addr, slot, "source") {
-            panic!("VERIF_HARD_CAP");
-        }
-        let (phase, mode) = w(|x| {
-            let frozen = x.frozen;
-            let stop = x.stop_infinite;
-            if frozen && role == Role::Upstream && x.children[id as usize].life != Life::Done {
-                x.up_last_pending_in_call = true;
-            }
-            let c = &mut x.children[id as usize];
-            let mode = c.plan.stash.max(1);
-            if c.life == Life::Done {
-                return (SPhase::End, mode);
-            }
-            if frozen {
-                c.last_pending = true;
-                return (SPhase::Pend(false), mode);
-            }
-            let ph = if c.pos < c.plan.script.len() {
-                let st = c.plan.script[c.pos];
-                c.pos += 1;
-                match st {
-                    SStep::Item => {
-                        let s = c.items_out;
-                        c.items_out += 1;
-                        SPhase::Item(s)
-                    }
-                    SStep::Err => {
-                        let s = c.items_out;
-                        c.items_out += 1;
-                        SPhase::Err(s)
-                    }
-                    SStep::Pend(sw) => SPhase::Pend(sw),
-                }
-            } else if c.plan.infinite && !stop {
-                let s = c.items_out;
-                c.items_out += 1;
-                SPhase::Item(s)
-            } else {
-                SPhase::End
-            };
-            match ph {
-                SPhase::Pend(_) => c.last_pending = true,
-                _ => c.last_pending = false,
-            }
-            if let SPhase::End = ph {
-                if role == Role::Upstream {
-                    c.life = Life::Done;
-                    x.up_ended = true;
-                    x.up_last_pending_in_call = false;
-                    if x.inflight > 0 {
-                        x.labels |= lb::UP_END_INFLIGHT;
-                    }
-                } else {
-                    mark_done(x, id);
-                    x.labels |= lb::SOURCE_ENDED;
-                }
-            } else if role == Role::Upstream {
-                x.up_last_pending_in_call = matches!(ph, SPhase::Pend(_));
-                if matches!(ph, SPhase::Pend(_)) {
-                    x.labels |= lb::UP_GAP;
-                }
-            }
-            (ph, mode)
-        });
-        match phase {
-            SPhase::Item(seq) => Poll::Ready(Some(S::item(id, seq))),
-            SPhase::Err(seq) => match S::err(id, seq) {
-                Some(e) => Poll::Ready(Some(e)),
-                None => Poll::Ready(Some(S::item(id, seq))),
-            },
-            SPhase::End => Poll::Ready(None),
-            SPhase::Pend(sw) => {
-                if role == Role::Upstream {
-                    let c = cx.waker().clone();
-                    let old = w(|x| x.children[id as usize].task_stash.replace(c));
-                    drop(old);
-                    if sw {
-                        w(|x| {
-                            x.ev(|| "    upstream wakes itself".to_string());
-                            x.bracket += 1
-                        });
-                        cx.waker().wake_by_ref();
-                        w(|x| x.bracket -= 1);
-                    }
-                } else {
-                    stash_waker(id, cx.waker(), mode);
-                    if sw {
-                        begin_invocation(slot, id, "self wake_by_ref (source)");
-                        vt(|| cx.waker().wake_by_ref());
-                        end_invocation();
-                    }
-                }
-                Poll::Pending
-            }
-        }
+        poll_source::<S>(id, addr, cx)
     }
 
     fn size_hint(&self) -> (usize, Option<usize>) {
+        source_hint(self.id)
+    }
+}
+
+/// The same scripted stream WITHOUT drop glue: its drop cannot be observed.
+pub struct NdStream<S: SKind> {
+    pub id: Cid,
+    _k: PhantomData<fn() -> S>,
+}
+impl<S: SKind> NdStream<S> {
+    pub fn new(id: Cid) -> Self {
+        NdStream { id, _k: PhantomData }
+    }
+}
+impl<S: SKind> Stream for NdStream<S> {
+    type Item = S::Item;
+    fn poll_next(self: Pin<&mut Self>, cx: &mut Context<'_>) -> Poll<Option<S::Item>> {
         let id = self.id;
-        w(|x| {
-            let c = &x.children[id as usize];
-            if c.life == Life::Done {
-                return (0, Some(0));
-            }
-            if c.plan.infinite && !x.stop_infinite {
-                return (usize::MAX, None);
-            }
-            let rem = c.plan.script[c.pos.min(c.plan.script.len())..]
-                .iter()
-                .filter(|s| !matches!(s, SStep::Pend(_)))
-                .count();
-            match c.upstream_kind % 5 {
-                0 => (rem, Some(rem)),
-                1 => (rem / 2, Some(rem + 3)),
-                2 => (0, None),
-                3 => (rem, Some(usize::MAX)),
-                _ => (rem, None),
-            }
-        })
+        let addr = &*self as *const Self as usize;
+        poll_source::<S>(id, addr, cx)
+    }
+    fn size_hint(&self) -> (usize, Option<usize>) {
+        source_hint(self.id)
     }
 }
 
